@@ -46,6 +46,7 @@ def step (toks : List String) : Option (String × String) :=
       let created ← match ← kv rest "created" with
         | "absent" => some Created.absent | "valid" => some .valid | "malformed" => some .malformed
         | "empty" => some .malformed  -- the key is present with the empty string: not an RFC 3339 time
+        | "validfrac" => some .valid | "validoffset" => some .valid   -- valid RFC 3339 in another spelling: kept as given
         | _ => none
       let (canCheck, present) ← match ← kv rest "target" with
         | "ros-present" => some (true, true) | "ros-absent" => some (true, false) | "pusher" => some (false, false)
